@@ -81,6 +81,16 @@ CHECKS = {
         'time_limit': {'quick': 600, 'thorough': 3600},
         'assumptions': CALNOTE,
     },
+    'C16': {
+        'bins': [rcbin('C16'), {'name': 'c16fuzz', 'src': 'c16fuzz.cc', 'flavour': 'fuzz'}],
+        'shards': {'quick': 8, 'thorough': 16},
+        'time_limit': {'quick': 600, 'thorough': 3600},
+        'fuzz': {'bin': 'c16fuzz', 'runs': {'quick': 300000, 'thorough': 0}, 'max_total_time': {'quick': 60, 'thorough': 300},
+                 'jobs': {'quick': 4, 'thorough': 16}, 'max_len': 64, 'case_key': 'spec_hex',
+                 'seeds': ['EST5EDT,M3.2.0,M11.1.0', '<+0330>-3:30<+0430>,J79/24,J263/24', 'XXX3YYY2,0/0,J365/25', 'NZST-12NZDT,M9.5.0,M4.1.0/3', 'UTC0'],
+                 'dict': ['"M3.2.0"', '",J60"', '"/-167"', '"<+03>"', '",0/0,J365/25"', '":59:59"', '"EST5EDT"']},
+        'assumptions': ['posixref.h: independent recursive-descent reader of the POSIX-TZ grammar as stated in the property'],
+    },
     'C17': {
         'bins': [rcbin('C17')],
         'shards': {'quick': 8, 'thorough': 16},
